@@ -657,9 +657,34 @@ func c09(c *core.Ctx) {
 			}
 		}
 
-		// inside clear
-		if len(clr.Params) == 2 {
-			oldRoot, newRoot := clr.Params[0], clr.Params[1]
+		// inside clear (a closure taking (oldRoot, newRoot), or — when the clearing code sits in the committing function itself — the
+		// receiver and the excluded node of its Walk call)
+		var oldRoot, newRoot ssa.Value
+		if len(clr.Params) == 2 && clr != cf {
+			oldRoot, newRoot = clr.Params[0], clr.Params[1]
+		} else if clr == cf {
+			if ws0 := core.CallsIn(clr, walk); len(ws0) == 1 && len(ws0[0].Common().Args) == 3 {
+				oldRoot, newRoot = ws0[0].Common().Args[0], ws0[0].Common().Args[2]
+				// the identities the closure form checks at its call site
+				okIds := core.Derived(item)[newRoot] || newRoot == item
+				if okIds {
+					okIds = false
+					for v := range core.SliceShallow(oldRoot) {
+						b, f, isLd := core.FieldLoad(v)
+						ld, _ := v.(ssa.Instruction)
+						if isLd && f == lastConfirm && b != nil && ld != nil && core.Dominates(ld, as) {
+							_, hl := core.LoopOf(ld.Block())
+							_, hp := core.LoopOf(ws0[0].Block())
+							if hl == hp {
+								okIds = true
+							}
+						}
+					}
+				}
+				c.Check("SetStableBlock:clear(previous LastConfirm, item)", "value-flow", okIds, ws0[0].Pos(), "the walk starts at the previous LastConfirm (read before the assignment, in the same iteration of the commit loop) and excludes the committed block")
+			}
+		}
+		if oldRoot != nil && newRoot != nil {
 			ws := core.CallsIn(clr, walk)
 			c.Exactly("clear/Walk-calls", len(ws), 1)
 			var listCell *ssa.Alloc
@@ -703,7 +728,12 @@ func c09(c *core.Ctx) {
 						nLoop++
 					case ks[newRoot] && core.SliceHasCall(ks, blockHash):
 						_, h := core.LoopOf(in.Block())
-						c.Check("clear:delete(new root)", "value-flow", h == nil, in.Pos(), "the new root leaves UnConfirmBlocks (it is LastConfirm now)")
+						var hw *ssa.BasicBlock
+						if len(ws) == 1 {
+							_, hw = core.LoopOf(ws[0].Block())
+						}
+						// once per clearing: outside any loop of the clearing code (the commit loop itself, when the code is inlined there, is fine)
+						c.Check("clear:delete(new root)", "value-flow", h == nil || (clr == cf && h == hw), in.Pos(), "the new root leaves UnConfirmBlocks (it is LastConfirm now)")
 						nRoot++
 					default:
 						c.Check("clear:delete(other)", "who-may-write", false, in.Pos(), "a delete from UnConfirmBlocks whose key is neither a walked node's hash nor the new root's")
